@@ -288,6 +288,7 @@ func LowerWithWarnings(ast *parser.Module, source string) (*LowerResult, error) 
 
 	// Copy deduplicated types from registry to module
 	l.module.Types = l.registry.GetTypes()
+	verifStage("decls", l.module)
 
 	// NOTE: CompactUnused (remove unreachable globals/functions) is NOT called here.
 	// Rust naga's lower() calls compact(KeepUnused::Yes) which keeps unused globals/functions.
@@ -298,6 +299,7 @@ func LowerWithWarnings(ast *parser.Module, source string) (*LowerResult, error) 
 	// compact which removes constants with is_abstract types).
 	// Must run BEFORE CompactTypes so that removed constants' types become unreferenced.
 	ir.CompactConstants(l.module)
+	verifStage("CompactConstants", l.module)
 
 	// Compact expressions: remove unreferenced expressions from each function.
 	// This matches Rust naga's compact pass which removes dead expressions
@@ -305,6 +307,7 @@ func LowerWithWarnings(ast *parser.Module, source string) (*LowerResult, error) 
 	// Must run BEFORE CompactTypes so that types referenced only by dead
 	// expressions (e.g., Compose for local const vec3) become unreferenced.
 	ir.CompactExpressions(l.module)
+	verifStage("CompactExpressions", l.module)
 
 	// Compact types: remove anonymous types not referenced by any handle.
 	// This matches Rust naga's compact::compact(module, KeepUnused::Yes)
@@ -312,20 +315,24 @@ func LowerWithWarnings(ast *parser.Module, source string) (*LowerResult, error) 
 	// registered during vec/mat/atomic resolution but are only embedded
 	// by value (not referenced by handle) in Vector/Matrix/Atomic types.
 	ir.CompactTypes(l.module)
+	verifStage("CompactTypes", l.module)
 
 	// Reorder surviving types in first-registration order.
 	ir.ReorderTypes(l.module)
+	verifStage("ReorderTypes", l.module)
 
 	// Remove duplicate/redundant Emit statements.
 	// Our emitter sometimes generates duplicate Emit ranges (e.g., Emit(7..8) twice)
 	// when function call flushes interact with statement-level emit wrappers.
 	// Rust naga doesn't have this issue because its emitter uses a different restart mechanism.
 	ir.DeduplicateEmits(l.module)
+	verifStage("DeduplicateEmits", l.module)
 
 	// Build GlobalExpressions arena from Constants, Overrides, and GlobalVariable inits.
 	// This mirrors Rust naga's Module.global_expressions which stores init expressions
 	// for all module-scope entities.
 	l.buildGlobalExpressions()
+	verifStage("buildGlobalExpressions", l.module)
 
 	return &LowerResult{
 		Module:   l.module,
